@@ -140,12 +140,10 @@ def check_case(case, ctx):
         if not eq('gpu', np.asarray(g.s)[3:], np.asarray(gref.s)[3:], 'captured results of WaveSim and WaveSimCuda'):
             return
         if not case['c_reuse']:
-            lo, cap = int(gref.c_locs[gref.tmp_idx]), int(gref.c_caps[gref.tmp_idx])
-            # only the rows below c_len are signal memory; a buffer may be allocated larger (padding)
-            ga, gb = np.asarray(g.c)[:int(g.c_len)].copy(), np.asarray(gref.c)[:int(gref.c_len)].copy()
-            ga[lo:lo + cap] = 0
-            gb[lo:lo + cap] = 0
-            if not eq('gpu_memory', ga, gb, 'signal memories of WaveSim and WaveSimCuda'):
+            # waveforms (entries up to each terminator) of every slot except the scratch slot; padding rows and stale content behind terminators are unspecified
+            ctx.count('pairs/gpu_memory')
+            if not W.same_waveforms(g, g.c, gref, gref.c, skip_idx=(gref.tmp_idx,)):
+                fail('gpu_memory', 'waveforms in the signal memories of WaveSim and WaveSimCuda differ')
                 return
         else:
             ctx.count('pairs/gpu_memory', 0)
